@@ -164,7 +164,7 @@ def classify(group, json_path, out, rc, cmd, dt):
 
     stats = {}
     for c in data.get("cbmc", []):
-        stats[c["harness_id"]] = c.get("cbmc_stats", {})
+        stats[c["harness_id"]] = c.get("cbmc_stats") or {}
     errs = {e["harness_id"]: e for e in data.get("error_details", [])}
     seen = set()
     for hr in data.get("verification_results", {}).get("results", []):
@@ -190,6 +190,7 @@ def classify(group, json_path, out, rc, cmd, dt):
             fn = c.get("function", "")
             cat = c.get("category", "")
             is_user = "__verif" in fn
+            in_harness = fn.endswith("::" + o.harness) or ("::" + o.harness + "::") in fn
             if cat == "cover" or status in ("satisfied", "unsatisfiable"):
                 if is_user:
                     covers_total += 1
@@ -205,7 +206,9 @@ def classify(group, json_path, out, rc, cmd, dt):
                     failed.append(rec)
             elif status in ("undetermined", "solver_error"):
                 undecided_reason = "%s: %s" % (status, desc[:200])
-            elif status == "unreachable" and is_user and cat == "assertion":
+            elif status == "unreachable" and in_harness and cat == "assertion" and not desc.startswith("attempt to") \
+                    and "index out of bounds" not in desc:
+                # an assert!/assert_eq! written in the harness body itself that CBMC cannot reach
                 unreachable_user.append(desc)
         r.covers_satisfied = covers_sat
         r.failed_checks = failed
